@@ -31,6 +31,9 @@ def spherematch(ra1, dec1, ra2, dec2, matchlength, chunksize=None, maxmatch=1):
     """
     if chunksize is None:
         chunksize = max(4.0 * matchlength, 0.1)
+    elif chunksize < 4.0 * matchlength:
+        chunksize = 4.0 * matchlength
+        warn('chunksize changed to {0:.2f}.'.format(chunksize), PydlutilsUserWarning)
     if ra1.size == 1:
         raise PydlutilsException('Change the order of the sets of coordinates!')
     chunk = chunks(ra1, dec1, chunksize)
